@@ -205,6 +205,201 @@ class T:
         raise Untranslatable("returned value")
 
 
+class L:
+    """`String::from_utf8_lossy_in` (src/collections/string.rs), statement by statement, result `Outcome Str.Bytes` (the bytes of
+    the returned string).  The chunk iterator is its remaining source (`iter.next()` is the translated `Gen.Fn.lossy_next`, a
+    `none` from it — out of fuel — is `bad`); `for chunk in iter` is a function recursive on fuel (source length + 1: every chunk
+    consumes at least one byte); `res.push_str(x)` is the *specification* of `push_str` (`Str.pushStr`, to which the translated
+    `push_str` is proved equal in Props/GenFnStr.lean); `Vec::from_iter_in(x.iter().cloned(), bump)` is `x`, `String::with_capacity_in`
+    / `from_str_in("")` are the empty string; `debug_assert!` panics when `dbg`; `const NAME: &str = "…"` is inlined as its UTF-8 bytes."""
+
+    def __init__(self):
+        self.n = 0
+        self.defs = []
+
+    def fresh(self, base):
+        self.n += 1
+        return f"{base}_{self.n}"
+
+    @staticmethod
+    def lit(text):
+        # Rust string literal body -> UTF-8 bytes
+        out = re.sub(r"\\u\{([0-9a-fA-F]+)\}", lambda m: chr(int(m.group(1), 16)), text)
+        if "\\" in out: raise Untranslatable("escape in string literal")
+        bs = out.encode("utf-8")
+        return "([" + ", ".join(f"0x{b:02X}" for b in bs) + "] : Str.Bytes)"
+
+    def V(self, e, env):
+        """pure value expression -> (term, type)"""
+        k = e[0]
+        if k in ("paren", "ref"): return self.V(e[1], env)
+        if k == "str": return (self.lit(e[1]), "bytes")
+        if k == "path" and len(e[1]) == 1 and e[1][0] in env: return env[e[1][0]]
+        if k == "tuple": 
+            vs = [self.V(x, env) for x in e[1]]
+            return ("(" + ", ".join(t for t, _ in vs) + ")", ("tuple", [ty for _, ty in vs]))
+        if k == "un" and e[1] == "!":
+            return (f"(!{self.V(e[2], env)[0]})", "bool")
+        if k == "bin" and e[1] == "==":
+            return (f"({self.V(e[2], env)[0]} == {self.V(e[3], env)[0]})", "bool")
+        if k == "mcall":
+            if e[2] == "chunks" and e[1][0] == "call" and e[1][1] == ("path", ["lossy", "Utf8Lossy", "from_bytes"]):
+                t, ty = self.V(e[1][2][0], env)
+                return (t, ("iter", t))
+            r, ty = self.V(e[1], env)
+            if e[2] == "len" and ty == "bytes": return (f"{r}.length", "nat")
+            if e[2] == "is_empty" and ty == "bytes": return (f"{r}.isEmpty", "bool")
+            if e[2] == "cloned" and ty == "bytesiter": return (r, "bytesiter")
+            if e[2] == "iter" and ty == "bytes": return (r, "bytesiter")
+            raise Untranslatable(f"method .{e[2]} on {ty}")
+        if k == "call" and e[1][0] == "path":
+            segs = e[1][1]
+            if segs == ["String", "from_utf8_unchecked"]: return self.V(e[2][0], env)
+            if segs == ["Vec", "from_iter_in"]:
+                t, ty = self.V(e[2][0], env)
+                if ty != "bytesiter": raise Untranslatable("from_iter_in of this iterator")
+                return (t, "bytes")
+            if segs == ["String", "from_str_in"]: return self.V(e[2][0], env)
+            if segs == ["String", "with_capacity_in"]: return ("([] : Str.Bytes)", "bytes")
+            raise Untranslatable(f"call of {'::'.join(segs)}")
+        raise Untranslatable(f"value form {k}")
+
+    def bind_pat(self, pat, term, ty, env):
+        e2 = dict(env)
+        if pat[0] == "pid":
+            e2[pat[1]] = (term, ty); return e2, ""
+        if pat[0] == "ptuple" and isinstance(ty, tuple) and ty[0] == "tuple":
+            pre = ""
+            for i, (q, qt) in enumerate(zip(pat[1], ty[1])):
+                ln = self.fresh(q[1]); pre += f"let {ln} := {term}.{i + 1};\n"; e2[q[1]] = (ln, qt)
+            return e2, pre
+        if pat[0] == "pstruct" and pat[1][-1] == "Utf8LossyChunk" and ty == "chunk":
+            for f, q in pat[2]:
+                if f not in ("valid", "broken") or q[0] != "pid": raise Untranslatable("chunk pattern")
+                e2[q[1]] = (f"{term}.{f}", "bytes")
+            return e2, ""
+        raise Untranslatable(f"pattern {pat[0]} against {ty}")
+
+    def next_chunk(self, it_name, env, k_some, k_none):
+        """`iter.next()`: advance the iterator local"""
+        it, ity = env[it_name]
+        ch = self.fresh("chunk")
+        e2 = dict(env); e2[it_name] = (f"{ch}.rest", ity)
+        return (f"(match Gen.Fn.lossy_next {it} with\n| none => Outcome.bad \"lossy: out of fuel\"\n| some none =>\n{k_none(env)}\n"
+                f"| some (some {ch}) =>\n{k_some(ch, e2)})")
+
+    # expression in value position that may return / branch: k(term, type, env)
+    def E(self, e, env, k):
+        if e[0] == "iflet" and e[1][0] == "pts" and e[1][1] == ["Some"] and e[2][0] == "mcall" and e[2][2] == "next" and e[2][1][0] == "path":
+            it = e[2][1][1][0]
+            pv = e[1][2][0]
+
+            def ks(ch, e2):
+                e3, pre = self.bind_pat(pv, ch, "chunk", e2)
+                return pre + self.BLK(e[3], e3, k)
+            return self.next_chunk(it, env, ks, lambda e2: self.BLK(e[4], e2, k))
+        t, ty = self.V(e, env)
+        return k(t, ty, env)
+
+    def BLK(self, blk, env, k):
+        """block whose value goes to k(term, type, env); `return` inside ends the function"""
+        if blk[0] == "unsafe": return self.BLK(blk[1], env, k)
+        _, stmts, tail = blk
+
+        def go(i, env_):
+            if i == len(stmts):
+                if tail is None: return k("()", "unit", env_)
+                if tail[0] in ("if", "unsafe", "block"):
+                    return self.ST(tail, env_, lambda e2: k("()", "unit", e2))
+                return self.E(tail, env_, k)
+            return self.ST(stmts[i][1] if stmts[i][0] == "expr" else stmts[i], env_, lambda e2: go(i + 1, e2))
+        return go(0, env)
+
+    def ST(self, st, env, k):
+        """statement; k(env) continues"""
+        kind = st[0]
+        if kind == "let":
+            def kl(t, ty, e2):
+                if st[1][0] == "pid" and isinstance(ty, str) and ty in ("bytes",) and not st[1][1].isupper() and not t.startswith("("):
+                    e3 = dict(e2); e3[st[1][1]] = (t, ty); return k(e3)
+                if st[1][0] == "pid" and (st[1][1].isupper() or isinstance(ty, tuple) and ty[0] == "iter"):
+                    e3 = dict(e2); e3[st[1][1]] = (t, ty); return k(e3)
+                if st[1][0] == "pid":
+                    ln = self.fresh(st[1][1]); e3 = dict(e2); e3[st[1][1]] = (ln, ty)
+                    return f"let {ln} := {t};\n{k(e3)}"
+                e3, pre = self.bind_pat(st[1], t, ty, e2)
+                return pre + k(e3)
+            return self.E(st[2], env, kl)
+        if kind in ("unsafe",): return self.ST(st[1], env, k)
+        if kind == "block": return self.BLK(st, env, lambda t, ty, e2: k(e2))
+        if kind == "return":
+            t, ty = self.V(st[1], env)
+            if ty != "bytes": raise Untranslatable("returned value")
+            return f"Outcome.ok {t}"
+        if kind == "macro" and st[1] == "debug_assert":
+            c, _ = self.V(st[2][0], env)
+            return f"(if dbg && !{c} then Outcome.panic else\n{k(env)})"
+        if kind == "if":
+            _, c, then, els = st
+            ct, _ = self.V(c, env)
+            mutated = sorted(self.assigned(then) | (self.assigned(els) if els is not None else set()))
+            # the branches rebind `res`; the continuation is duplicated into both (it is short: the function is straight-line)
+            a = self.BLK(then, env, lambda t, ty, e2: k(e2))
+            b = self.BLK(els, env, lambda t, ty, e2: k(e2)) if els is not None else k(env)
+            return f"(if {ct} then\n{a}\nelse\n{b})"
+        if kind == "mcall" and st[2] == "push_str" and st[1][0] == "path" and st[1][1][0] in env:
+            name = st[1][1][0]
+            r, rty = env[name]
+            a, aty = self.V(st[3][0], env)
+            if rty != "bytes" or aty != "bytes": raise Untranslatable("push_str operands")
+            ln = self.fresh(name); e2 = dict(env); e2[name] = (ln, "bytes")
+            return f"let {ln} := Str.pushStr {r} {a};\n{k(e2)}"
+        if kind == "foriter" and st[2][0] == "path" and st[2][1][0] in env:
+            it_name = st[2][1][0]
+            it, ity = env[it_name]
+            if not (isinstance(ity, tuple) and ity[0] == "iter"): raise Untranslatable("for over this value")
+            muts = sorted(self.assigned(st[3]) & set(env))
+            name = "from_utf8_lossy_in.loop"
+            fuel, fuel1 = self.fresh("fuel"), self.fresh("fuel")
+            envl = dict(env)
+            itl = self.fresh(it_name); envl[it_name] = (itl, ity)
+            params = []
+            for m in muts:
+                ln = self.fresh(m); envl[m] = (ln, env[m][1]); params.append(ln)
+            again = lambda e2: f"(Gen.Fn.{name} dbg v {fuel1} {e2[it_name][0]} {' '.join(e2[m][0] for m in muts)})"
+
+            def ks(ch, e2):
+                e3, pre = self.bind_pat(st[1], ch, "chunk", e2)
+                return pre + self.BLK(st[3], e3, lambda t, ty, e4: again(e4))
+            inner = self.next_chunk(it_name, envl, ks, k)
+            if not any(d.startswith(f"def {name} ") for d in self.defs):
+              self.defs.append(f"def {name} (dbg : Bool) (v : Str.Bytes) : Nat → Str.Bytes → {' → '.join('Str.Bytes' for _ in muts)} → Outcome Str.Bytes\n"
+                             f"  | 0, _, {', '.join('_' for _ in muts)} => Outcome.bad \"lossy: out of fuel\"\n"
+                             f"  | {fuel1} + 1, {itl}, {', '.join(params)} =>\n" + indent(inner, 2) + "\n")
+            return f"(Gen.Fn.{name} dbg v ({ity[1]}.length + 1) {it} {' '.join(env[m][0] for m in muts)})"
+        raise Untranslatable(f"statement {kind}")
+
+    def assigned(self, e):
+        """names of locals mutated through `.push_str` inside e"""
+        out = set()
+        if isinstance(e, tuple):
+            if e and e[0] == "mcall" and e[2] == "push_str" and e[1][0] == "path":
+                out.add(e[1][1][0])
+            for x in e: out |= self.assigned(x)
+        elif isinstance(e, list):
+            for x in e: out |= self.assigned(x)
+        return out
+
+    def function(self, body):
+        env = {"v": ("v", "bytes"), "bump": ("()", "unit")}
+
+        def kret(t, ty, e2):
+            if ty != "bytes": raise Untranslatable("result")
+            return f"Outcome.ok {t}"
+        text = self.BLK(body, env, kret)
+        return "\n".join(self.defs) + "/-- `fn from_utf8_lossy_in` (src/collections/string.rs) -/\ndef from_utf8_lossy_in (dbg : Bool) (v : Str.Bytes) : Outcome Str.Bytes :=\n" + indent(text) + "\n"
+
+
 def indent(text, base=1):
     out, depth = [], 0
     for line in text.split("\n"):
@@ -257,6 +452,14 @@ def translate_all(repo):
     except (ParseError, Untranslatable, KeyError, IndexError, TypeError) as ex:
         out = [f"/- `Utf8LossyChunksIter::next` could not be translated: {type(ex).__name__}: {ex} -/\n"]
         report["lossy_next"] = f"untranslatable: {type(ex).__name__}: {ex}"
+    try:
+        ssrc = rsparse.strip_comments(open(os.path.join(repo, "src/collections/string.rs")).read())
+        sig, body = rsparse.find_fn(ssrc, "from_utf8_lossy_in", 0, "impl<'bump> String<'bump> {")
+        out.append(L().function(body))
+        report["from_utf8_lossy_in"] = "ok"
+    except (ParseError, Untranslatable, KeyError, IndexError, TypeError) as ex:
+        out.append(f"/- `String::from_utf8_lossy_in` could not be translated: {type(ex).__name__}: {ex} -/\n")
+        report["from_utf8_lossy_in"] = f"untranslatable: {type(ex).__name__}: {ex}"
     return HEADER + "\n".join(out) + "\nend Gen.Fn\n", report
 
 
